@@ -8,6 +8,7 @@
 package opwl
 
 import (
+	"bytes"
 	"fmt"
 	"math/rand/v2"
 	"os"
@@ -66,7 +67,7 @@ func Incremental(op opcat.Op) bool { return strings.HasSuffix(op.Name, "/incr") 
 type Input struct {
 	Name  string // stable name: path relative to the repo, or gen/<i>
 	Path  string
-	Kind  string // "corpus" | "pdfgen" | "sparse" (pdfgen document with a numbering extreme, see PoolOptions.Sparse)
+	Kind  string // "corpus" | "pdfgen" | "sparse" (pdfgen document with a numbering extreme, see PoolOptions.Sparse) | "feature" (features.go)
 	Pages int
 	Tags  map[string]bool // pdfgen: xrefstream objstm hybrid updates inherit annots sig viewer form outlines files enc
 	Enc   string          // algorithm of an encrypted pdfgen input ("" = clear)
@@ -85,7 +86,9 @@ type Pool struct {
 	// statistics
 	CorpusCandidates, CorpusRejected, GenRejected, SparseRejected int
 	many                                                          []int // indices of inputs with >= 8 pages
-	general                                                       int   // Inputs[:general] are what Plans substitutes; the rest are the sparse inputs
+	general                                                       int   // Inputs[:general] are what Plans substitutes; Inputs[general:sparseEnd] are the sparse inputs
+	sparseEnd                                                     int   // Inputs[sparseEnd:] are the feature inputs (PoolOptions.Features, used by FeaturePlans only)
+	FeatureRejected                                               int
 }
 
 // PoolOptions sizes the pool.
@@ -100,6 +103,9 @@ type PoolOptions struct {
 	// Configuration.Limits.MaxObjectCount is raised, and then needs 10-200 CPU seconds and several hundred MB per
 	// write of such a document). Both kinds are only used by SparsePlans, never by Plans.
 	Sparse, SparseHuge int
+	// Features: also build the feature documents of features.go (structures operations rewrite, present in a
+	// non-default representation); they are only used by FeaturePlans, never by Plans or SparsePlans.
+	Features bool
 }
 
 func relaxedConf() *model.Configuration {
@@ -189,6 +195,14 @@ func BuildPool(t *vk.T, o PoolOptions) *Pool {
 			return
 		}
 		corpus[i] = &Input{Name: cands[i], Path: path, Kind: "corpus", Pages: n, Tags: map[string]bool{}}
+		if raw, err := os.ReadFile(path); err == nil {
+			// evidence only: catalog keys visible in the raw bytes (keys inside object streams are not seen)
+			for _, k := range []string{"/Metadata", "/Outlines", "/AcroForm", "/EmbeddedFiles", "/OCProperties", "/ViewerPreferences", "/PageLabels"} {
+				if bytes.Contains(raw, []byte(k)) {
+					corpus[i].Tags["raw:"+k] = true
+				}
+			}
+		}
 		if o.Strict {
 			corpus[i].StrictOK = Validate(path, true) == nil
 		}
@@ -253,6 +267,10 @@ func BuildPool(t *vk.T, o PoolOptions) *Pool {
 		} else {
 			p.SparseRejected++
 		}
+	}
+	p.sparseEnd = len(p.Inputs)
+	if o.Features {
+		p.buildFeatures(t, o.Strict)
 	}
 	return p
 }
@@ -364,9 +382,11 @@ func GenDoc(rng *rand.Rand, i int) (*Input, []byte) {
 		data, in.Enc = out.Bytes, alg.String()
 		in.Tags["enc"] = true
 		in.Pages = len(truth.Pages)
+		xmpTags(in, doc, truth)
 	} else {
 		bt := pdfgen.Build(spec)
 		data, in.Pages = bt.Bytes, len(bt.Truth.Pages)
+		xmpTags(in, bt.Doc, bt.Truth)
 	}
 	set := func(k string, b bool) {
 		if b {
@@ -384,7 +404,19 @@ func GenDoc(rng *rand.Rand, i int) (*Input, []byte) {
 	set("form", spec.Form)
 	set("outlines", spec.Outlines > 0)
 	set("files", spec.RandomFiles > 0)
+	set("dests", spec.Dests > 0)
 	return in, data
+}
+
+// xmpTags records whether the document has catalog XMP metadata and whether its stream is filtered.
+func xmpTags(in *Input, doc *pdfgen.Doc, truth *pdfgen.Truth) {
+	if truth == nil || truth.Objs.Metadata == 0 {
+		return
+	}
+	in.Tags["xmp"] = true
+	if st, ok := doc.Get(truth.Objs.Metadata).(*pdfgen.Stream); ok && len(st.Filters) > 0 {
+		in.Tags["xmp-filtered"] = true
+	}
 }
 
 // TagCounts summarises the pool for the evidence file.
@@ -567,7 +599,7 @@ func (p *Pool) SparsePlans(t *vk.T, ops []opcat.Op, perInput, perHuge, first int
 		}
 	}
 	var out []Plan
-	for si := p.general; si < len(p.Inputs); si++ {
+	for si := p.general; si < p.sparseEnd; si++ {
 		in := p.Inputs[si]
 		rng := t.RNGi("opwl-sparse-plan", si-p.general)
 		k := perInput
